@@ -61,7 +61,7 @@ def bounded(check):
         info = {"error": (p.stderr or p.stdout)[-400:]}
     out = dict(name="command line > environment > file > default on the real loader; conflicting switch combinations rejected or resolved consistently",
                level="bounded",
-               bound="8 sample options (numeric, boolean, string, conf) x every subset of the three sources; offline x 8 requests / output locations x 3 "
+               bound="8 sample options (numeric, boolean, string, conf) x every subset of the three sources; 7 spellings of a boolean in the file x 4 options; offline x 8 requests / output locations x 3 "
                      "obfuscation settings",
                result=info, violation=(p.returncode == 1), error=(p.returncode not in (0, 1)))
     if p.returncode == 1:
